@@ -44,7 +44,7 @@ def _reach_avoiding(b, frm, targets, avoid):
 
 
 def _runner(ctx, defn, label):
-    b = ctx.body(defn)
+    b = ctx.ibody(defn)
     calls = b.real_calls()
     P = [(bi, t, tm) for bi, t, tm in calls if mir.short(tm[1]) == "engine::process_with_audit"]
     S = [(bi, t, tm) for bi, t, tm in calls if mir.short(tm[1]) == "ChannelTxDroppable::send"]
@@ -98,7 +98,7 @@ def r1(ctx):
     s2 = _runner(ctx, ctx.find(path="barter::engine::run::async_run_with_audit::{closure#0}"), "async_run_with_audit")
     ctx.check("sync_run_with_audit~async_run_with_audit", s1 is not None and s1 == s2,
               "both runners perform the same sequence of audit-relevant calls", got=(s1, s2), key="siblings")
-    cd = ctx.fbody(name="send", self_adt="barter_integration::channel::ChannelTxDroppable", trait="")
+    cd = ctx.fibody(name="send", self_adt="barter_integration::channel::ChannelTxDroppable", trait="")
     snd = [(bi, t, tm) for bi, t, tm in cd.real_calls() if tm[1].endswith("Tx::send")]
     ok = len(snd) == 1 and render(snd[0][2][2][1]) == "item" and render(snd[0][2][2][0]) == "self.state.as:Active.0"
     if ok:
@@ -106,7 +106,7 @@ def r1(ctx):
         ok = len(g) == 1 and [mir.render_atom(a) for a in next(iter(g))] == ["self.state is Active"]
     ctx.check("ChannelTxDroppable::send", ok, "while the audit channel is active every record handed to it is forwarded, unmodified, once",
               got=[(render(x[2]), render_guard(cd.guard(x[0]))) for x in snd], key="forwards")
-    b = ctx.body(ctx.find(path="barter::engine::process_with_audit"))
+    b = ctx.ibody(ctx.find(path="barter::engine::process_with_audit"))
     rt = b.return_term()
     ok = render(rt) == "Auditor::audit(engine, Processor::process(engine, event))"
     n = {}
@@ -118,7 +118,7 @@ def r1(ctx):
 
 def r2(ctx):
     SEQ = "barter::Sequence"
-    b = ctx.fbody(name="fetch_add", self_adt=SEQ, trait="")
+    b = ctx.fibody(name="fetch_add", self_adt=SEQ, trait="")
     st = b.stores()
     ok = len(st) == 1 and render(st[0][2]) == "self.0"
     ctx.check("Sequence::fetch_add", ok, "one store, to the counter", got=[render(s[2]) for s in st], key="store")
@@ -147,7 +147,7 @@ def r2(ctx):
     owners = sorted(set(mir.short(whomay.owner_fn(d)) for d, _, _ in cs))
     ctx.check("Sequence::fetch_add", owners == ["Engine::audit"], "the only caller is Auditor::audit", got=owners, key="callers")
     AUD = "barter::engine::audit::Auditor"
-    a = ctx.fbody(name="audit", self_adt=ENG, trait=AUD)
+    a = ctx.fibody(name="audit", self_adt=ENG, trait=AUD)
     fa = [(bi, t, tm) for bi, t, tm in a.real_calls() if tm[1] == target]
     ctx.check("Engine::audit", len(fa) == 1 and render(fa[0][2][2][0]) == "self.meta.sequence" and
               a.guard(fa[0][0]) == frozenset([frozenset()]), "each audit record draws exactly one sequence number from the engine's own counter",
@@ -156,7 +156,7 @@ def r2(ctx):
     ctx.check("Engine::audit", render(rt) == "AuditTick::AuditTick{event: From::from(kind), context: EngineContext::EngineContext{sequence: "
               "Sequence::fetch_add(self.meta.sequence), time: EngineClock::time(self.clock)}}",
               "the record carries exactly the drawn number, the engine clock's time and the given payload", got=render(rt)[:240], key="record")
-    s = ctx.fbody(name="audit_snapshot", self_adt=ENG, trait=AUD)
+    s = ctx.fibody(name="audit_snapshot", self_adt=ENG, trait=AUD)
     ctx.check("Engine::audit_snapshot", render(s.return_term()) in ("Auditor::audit(self, self.state)", "Engine::audit(self, self.state)"),
               "the snapshot is an ordinary audit record of the current state (so it consumes the number preceding the first tick)",
               got=render(s.return_term()), key="snapshot")
@@ -176,7 +176,7 @@ def r2(ctx):
 
 def r3(ctx):
     P = "barter::engine::Processor"
-    b = ctx.body(ctx.find(name="process", self_adt=ENG, trait=P))
+    b = ctx.ibody(ctx.find(name="process", self_adt=ENG, trait=P))
     n = 0
     for g, term, bi in b.expanded_cases(0):
         for sub in mir.subterms(term):
@@ -216,11 +216,11 @@ def _mutators(ctx, b, root_pred):
 def r4(ctx):
     eng = {}
     for fn in ("update_from_trading_state_update", "update_from_account_stream", "update_from_market_stream"):
-        b = ctx.fbody(name=fn, self_adt=ENG, trait="")
+        b = ctx.fibody(name=fn, self_adt=ENG, trait="")
         m = _mutators(ctx, b, lambda t: render(t).startswith("self.state"))
         for arm, s in m.items():
             eng["%s:%s" % (fn.replace("update_from_", "").replace("_stream", "").replace("_update", ""), arm)] = s
-    rep_b = ctx.fbody(name="update_from_event", self_adt=SRM, trait="")
+    rep_b = ctx.fibody(name="update_from_event", self_adt=SRM, trait="")
     rep = _mutators(ctx, rep_b, lambda t: "StateReplicaManager::replica_engine_state_mut(self)" in render(t) or render(t).startswith("self.state_replica"))
     want_eng = {
         "trading_state:": {"TradingState::update"},
@@ -269,7 +269,7 @@ def r4(ctx):
 
 
 def r5(ctx):
-    run = ctx.fbody(name="run", self_adt=SRM, trait="")
+    run = ctx.fibody(name="run", self_adt=SRM, trait="")
     calls = run.real_calls()
     val = [(bi, t, tm) for bi, t, tm in calls if mir.short(tm[1]) == "StateReplicaManager::validate_and_update_context"]
     upd = [(bi, t, tm) for bi, t, tm in calls if mir.short(tm[1]) == "StateReplicaManager::update_from_event"]
@@ -310,7 +310,7 @@ def r5(ctx):
         ctx.check("StateReplicaManager::run", render(upd[0][2][2][1]) == "Iterator::next(self.updates).as:Some.0.event.as:Process.0.event" and
                   render(val[0][2][2][1]) == "Iterator::next(self.updates).as:Some.0.context",
                   "the update applied is the record's own event", got=render(upd[0][2])[:200], key="own-event")
-    v = ctx.fbody(name="validate_and_update_context", self_adt=SRM, trait="")
+    v = ctx.fibody(name="validate_and_update_context", self_adt=SRM, trait="")
     st = v.stores()
     ok = len(st) == 1 and render(st[0][2]) == "self.state_replica.context" and render(st[0][3]) == "next"
     ctx.check("StateReplicaManager::validate_and_update_context", ok, "stores the new context (only)", got=[(render(s[2]), render(s[3])) for s in st],
@@ -344,7 +344,7 @@ def r6(ctx):
     ds = [d for d in ctx.facts.bodies if d.startswith("barter::system::builder::SystemBuild::") and d.endswith("::init_internal::{closure#0}")]
     if len(ds) != 1:
         raise Exception("SystemBuild::init_internal coroutine not found: %r" % ds)
-    b = ctx.body(ds[0])
+    b = ctx.ibody(ds[0])
     snaps = [(bi, t, tm) for bi, t, tm in b.real_calls() if tm[1].endswith("Auditor::audit_snapshot")]
     ctx.check("SystemBuild::init_internal", len(snaps) == 2, "a snapshot is taken in both audited modes", got=len(snaps), key="two-modes")
     spawns = [(bi, t, tm) for bi, t, tm in b.real_calls() if mir.short(tm[1]) in ("Handle::spawn_blocking", "Handle::spawn")
@@ -366,7 +366,7 @@ def r6(ctx):
                 cd = c[1][len("closure:"):]
                 for dd in [cd] + ctx.closures_of(cd):
                     if dd in ctx.facts.bodies:
-                        for _, _, tm2 in ctx.body(dd).real_calls():
+                        for _, _, tm2 in ctx.ibody(dd).real_calls():
                             names.add(mir.short(tm2[1]))
                             for sub in mir.subterms(tm2):
                                 if sub[0] == "agg" and sub[1].startswith("closure:"):
@@ -395,38 +395,38 @@ def r7(ctx):
                                                                               "NoneOneOrMany::from_iter(unrecoverable)") + "}", "event, output and all errors"),
         (EA, "with_process_and_err", "EngineAudit::Process{0: ProcessAudit::add_errors(process, unrecoverable)}", "the record plus the errors"),
     ):
-        L(ctx, "%s::%s" % (mir.short(adt).split("::")[-1], fn), ctx.fbody(name=fn, self_adt=adt, trait=""),
+        L(ctx, "%s::%s" % (mir.short(adt).split("::")[-1], fn), ctx.fibody(name=fn, self_adt=adt, trait=""),
           "audit record builder: " + what, ret=ret, effects=[], key="builder")
     L(ctx, "EngineAudit::from(ProcessAudit)", _from_process(ctx, EA),
       "conversion keeps the record", ret="EngineAudit::Process{0: value}", effects=[], key="builder")
     # every with_*_update arm keeps the event
     for fn in ("with_trading_state_update", "with_account_update", "with_market_update"):
-        b = ctx.fbody(name=fn, self_adt=PA, trait="")
+        b = ctx.fibody(name=fn, self_adt=PA, trait="")
         rt = b.return_term()
         alts = list(rt[1]) if rt[0] == "phi" else [rt]
         bad = [render(a)[:120] for a in alts if not (
             (a[0] == "call" and mir.short(a[1]) in ("ProcessAudit::with_event", "ProcessAudit::with_output") and render(a[2][0]) == "event") or
             (a[0] == "agg" and render(a).startswith("ProcessAudit::ProcessAudit{event: Into::into(event), ")))]
         ctx.check("ProcessAudit::" + fn, len(alts) >= 2 and not bad, "every arm builds the record from the event being processed", got=bad, key="keeps-event")
-    t = ctx.fbody(name="is_terminal", self_adt=PA, trait="barter_integration::Terminal")
+    t = ctx.fibody(name="is_terminal", self_adt=PA, trait="barter_integration::Terminal")
     tab = sorted((render_guard(g), render(v)) for g, v, bi in t.expanded_cases(0))
     ctx.check("ProcessAudit::is_terminal", tab == [("(!Terminal::is_terminal(self.event))", "Not(NoneOneOrMany::is_empty(self.errors))"),
                                                     ("(Terminal::is_terminal(self.event))", "1")],
               "a record is terminal exactly when its event is terminal or it carries unrecoverable errors", got=tab, key="table")
-    t = ctx.fbody(name="is_terminal", self_adt=EA, trait="barter_integration::Terminal")
+    t = ctx.fibody(name="is_terminal", self_adt=EA, trait="barter_integration::Terminal")
     tab = sorted((render_guard(g), render(v)) for g, v, bi in t.expanded_cases(0))
     ctx.check("EngineAudit::is_terminal", tab == [("(self is FeedEnded)", "1"), ("(self is Process)", "ProcessAudit::is_terminal(self.as:Process.0)")],
               "FeedEnded is terminal; a Process record defers to the record", got=tab, key="table")
-    L(ctx, "StateReplicaManager::replica_engine_state_mut", ctx.fbody(name="replica_engine_state_mut", self_adt=SRM, trait=""),
+    L(ctx, "StateReplicaManager::replica_engine_state_mut", ctx.fibody(name="replica_engine_state_mut", self_adt=SRM, trait=""),
       "the replica's state is the one inside the replica's own tick", ret="self.state_replica.event", effects=[], key="view")
-    L(ctx, "Sequence::value", ctx.fbody(name="value", self_adt="barter::Sequence", trait=""), "the counter's value", ret="self.0", effects=[], key="view")
+    L(ctx, "Sequence::value", ctx.fibody(name="value", self_adt="barter::Sequence", trait=""), "the counter's value", ret="self.0", effects=[], key="view")
 
 
 def _from_process(ctx, EA):
     ds = [d for d in ctx.facts.bodies if d.startswith("<" + EA) and d.endswith("::from") and "ProcessAudit" in d]
     if len(ds) != 1:
         raise Exception("From<ProcessAudit> for EngineAudit not found: %r" % ds)
-    return ctx.body(ds[0])
+    return ctx.ibody(ds[0])
 
 
 RULES = [
